@@ -170,6 +170,47 @@ func (w *World) ruleDecoderForms(r *Report, rule, cname string) {
 	r.floor(rule+" ("+cname+")", n, 1)
 }
 
+// ruleWrapperForwards: the Decoder method wrapping a scalar decoder returns
+// the decoder's value and rejects nothing but what the decoder rejects.
+func (w *World) ruleWrapperForwards(r *Report, rule, cname string) {
+	c := w.codecs()[cname]
+	if c == nil || c.Wrap == nil || c.Dec == nil {
+		r.undecided(rule, cname+" read wrapper", "-", "no *Decoder method func(int32) (T, error) calling the "+cname+" decoder found")
+		return
+	}
+	fn := c.Wrap
+	idx := errIndex(fn.Signature)
+	ok, fact := true, "returns the scalar decoder's value and error unchanged"
+	for _, b := range fn.Blocks {
+		ret, isRet := b.Instrs[len(b.Instrs)-1].(*ssa.Return)
+		if !isRet {
+			continue
+		}
+		for i, res := range ret.Results {
+			good := false
+			if ex, isEx := res.(*ssa.Extract); isEx && ex.Index == i {
+				if call, isC := ex.Tuple.(*ssa.Call); isC && call.Call.StaticCallee() == c.Dec {
+					good = true
+				}
+			}
+			if i == idx && !good && !isNilConst(res) {
+				ok = false
+				fact = "returns the error " + describeVal(res, nil) + " at " + w.instrPos(ret) + ": a value the " + cname + " decoder accepted is rejected depending on its content"
+			}
+			if i != idx && !good && (idx < 0 || isNilConst(ret.Results[idx]) || true) {
+				// a value other than the decoder's on a non-error return
+				if ex, isEx := ret.Results[idx].(*ssa.Extract); !(isEx && ex.Tuple != nil) || !good {
+					if !w.nonNilErr(ret.Results[idx], nil, nil, 0) {
+						ok = false
+						fact = "returns " + res.String() + " at " + w.instrPos(ret) + " instead of the decoder's value"
+					}
+				}
+			}
+		}
+	}
+	r.add(rule, fnName(fn)+" · forwards the "+cname+" decoder", w.pos(fn.Pos()), ok, fact)
+}
+
 // rulePairOctets: for every encoder form, every first octet it can emit is
 // accepted by the paired decoder, which then pulls exactly the remaining
 // octets of the form (self-delimiting scalars: encoder octets = decoder octets).
